@@ -365,7 +365,7 @@ impl C01 {
 impl C01 {
 	/// A late-locked send selects its inputs when the reply is finalized.
 	fn judge_late(
-		&self,
+		&mut self,
 		run: &mut Run,
 		w: usize,
 		d: usize,
@@ -436,6 +436,9 @@ impl C01 {
 						// an input: it existed before the call
 						n_in += 1;
 						in_sum += o.value as u128;
+						if b.status == OutputStatus::Unconfirmed {
+							self.spent_unconfirmed.insert((w, o.key_id.to_hex()));
+						}
 						if b.root_key_id != acct {
 							v.push(run.viol(
 								"inputs_spendable",
